@@ -32,6 +32,7 @@ EXEMPT = {
     ("MinimizerBase.release_several", "call self.release"): "internal bulk operation; in-repo callers pass the adapter's own parameter names",
     ("MinimizerBase._get_cost_value", "call self.set"): "parameter_name comes from the adapter's own name list (validated by the public entry points)",
     ("MinimizerBase._get_arrow_specs", "call self._get_cost_value"): "same as _get_cost_value",
+    ("MinimizerBase._get_profile_bound", "call self._get_cost_value"): "same as _get_cost_value (the canonical program writes _get_arrow_specs out in its only caller)",
     ("MultiFit._init_shared_error_nodes", "call self._nexus.add"): "node names are generated from unique fit indices and cannot clash",
 }
 
@@ -205,7 +206,8 @@ def run(eng, R):
                 if ex:
                     R.ob("RA", f.qualname, True, eng.where(f, w.stmt), "exempt: %s" % ex)
                     continue
-                R.ob("RA", "%s:%s~>%s" % (f.qualname, norm_stmt(w.stmt if w.kind == "stmt" else w.expr)[:60], desc.split(":")[0][:60]), False, eng.where(f, w.stmt),
+                # keyed by function and rejection point (not by the text of the write statement, which changes with the way arguments are passed)
+                R.ob("RA", "%s~>%s" % (f.qualname, desc.split(":")[0][:60]), False, eng.where(f, w.stmt),
                      "%s (as %s) writes %s and can afterwards still reject the call (%s) without undoing the write: %s" % (f.qualname, ctx.name, ws[:3], desc[:140], path_text(f, path)[:6]))
     R.info["functions analysed for R-A"] = n_funcs
     for k, why in EXEMPT.items():
